@@ -235,6 +235,15 @@ def check_c17(rep, tier):
         strings.append(" ".join(f.split()[:5]))           # five fields
         strings += mutations(r, f, 130 if tier == "quick" else 0)
         strings += unicode_mutations(r, f, 40 if tier == "quick" else 0)
+    # material at the edge of what promotions allow (k extra pieces of one kind with exactly 8 - k pawns), both colours:
+    # reachable, sane, and must be imported
+    edge = ["4k3/8/8/8/8/2B5/PPPPPPP1/2B1KB2 w - - 0 1", "4k3/8/8/8/8/2N5/PPPPPPP1/1N2K1N1 w - - 0 1", "4k3/8/8/8/8/2R5/PPPPPPP1/R3K2R w - - 0 1",
+            "4k3/8/8/8/8/2Q5/PPPPPPP1/3QK3 w - - 0 1", "4k3/8/8/8/8/2B2B2/PPPPPP2/2B1KB2 w - - 0 1", "4k3/8/8/8/8/2N2N2/PPPPPP2/1N2K1N1 w - - 0 1",
+            "4k3/8/8/8/8/QQQQ4/QQQQ4/3QK3 w - - 0 1", "4k3/8/8/8/8/2B2N2/PPPPPP2/1NB1KBN1 w - - 0 1"]
+    for f in edge:
+        parts = f.split()
+        mirrored = "/".join(row.swapcase() for row in reversed(parts[0].split("/"))) + " b - - 0 1"
+        strings += [f, mirrored]
     strings = [s for s in dict.fromkeys(strings) if "\n" not in s and "\r" not in s]
     cases = [["new " + s, "obs", "moves c"] for s in strings]
     stats, kinds = Counter(), Counter()
